@@ -15,6 +15,8 @@ ENGINES = [
      "kind_free_text": "generated event histories executed on the real scheduler.Cell under a virtual clock; reference-model oracles after every cycle; forked probe cycles"},
     {"name": "master-zk", "path": "vf/master", "serves_properties": ["C01", "C03", "C04", "C05", "C06", "C07", "C08", "C09", "C10", "C11"],
      "kind_free_text": "real Master/Loader on ZkBackend on an in-memory ZooKeeper (vf/zkfake.py); events produced with masterapi; fork-based crash cuts and restarts"},
+    {"name": "api-ldapfake", "path": "vf/api", "serves_properties": ["C19", "C15"],
+     "kind_free_text": "real API / admin objects over an in-memory LDAP directory (vf/api/ldapfake.py)"},
 ]
 _SCHED_NOTE = ("Trusted base: the harness model of what it asked for (vf/sched/celldrv.py), the virtual clock, the observe-only wrappers; "
                "the Cell is driven with the call sequences scheduler.loader uses. Decides only the executions produced; evidence lists reach counters.")
@@ -54,4 +56,8 @@ CHECKS['C10'] = dict(engine='master-zk', category='fault_enumeration', design_re
 CHECKS['C11'] = dict(engine='master-zk', category='exploration', design_ref='DESIGN 3 C11', note=_M_NOTE,
                      text="After every completed cycle a forked child rebuilds the model with load_model() and it is compared with a reference computed from the stored state alone (healthy servers: presence ctime <= entry ctime, recorded instances fit).",
                      technique="runtime monitoring: forked restart after every cycle vs reference computed from the stored state")
+CHECKS['C19'] = dict(engine='api-ldapfake', category='exploration', design_ref='DESIGN 5 C19',
+                     note="Trusted base: in-memory directory under the real treadmill.admin._ldap.Admin (wire operations only are replaced); the harness mirror of stored reservations and its own unit parser; schema-invalid requests are outside the domain.",
+                     text="Sequences of create/update/delete reservation requests are issued to the real API (real schema validation, real admin objects) and every accept/reject decision is compared with an independent sum over the stored reservations, per dimension and per limited trait.",
+                     technique="runtime monitoring: reference-model oracle (independent capacity sum) on every API decision of generated request sequences")
 NOT_APPLICABLE = {}
